@@ -170,7 +170,7 @@ func (r *c13Run) handler(msg protocol.Message) error {
 	i := len(r.handled)
 	r.handled = append(r.handled, append([]byte(nil), msg.Cbor()...))
 	nAcc := len(r.acc)
-	limit := c.Limit
+	limit := c.limitAt(i)
 	if i < len(c.Wire) {
 		// (1) harness model, no hook involved: every message the decoder has been
 		// given, except the most recent one (it may still be waiting for
@@ -217,6 +217,12 @@ func (r *c13Run) handler(msg protocol.Message) error {
 	r.cond.Broadcast()
 	gate := c.Gate == i
 	r.mu.Unlock()
+	if bm, ok := msg.(*blobMsg); ok {
+		// the handler owns the message: the accounting must not depend on its bytes
+		for j := range bm.raw {
+			bm.raw[j] = ^bm.raw[j]
+		}
+	}
 
 	if gate {
 		r.holdGate(i)
@@ -239,11 +245,14 @@ func (r *c13Run) holdGate(i int) {
 	c := r.c
 	// expected steady state: largest n with size(i..n-1) <= limit
 	target := len(c.Wire)
-	if c.Limit > 0 {
+	if lim := c.limitAt(i); lim > 0 {
 		target = i + 1
-		for target < len(c.Wire) && r.prefix[target+1]-r.prefix[i] <= c.Limit {
+		for target < len(c.Wire) && r.prefix[target+1]-r.prefix[i] <= lim {
 			target++
 		}
+	}
+	if c.ShiftAt >= 0 && i <= c.ShiftAt && target > c.ShiftAt+1 {
+		target = c.ShiftAt + 1 // the peer waits for the Shift message to be handled
 	}
 	if c.Oversize >= 0 && target > c.Oversize {
 		target = c.Oversize
@@ -304,12 +313,23 @@ type c13Case struct {
 	Gate           int
 	GateHoldUs     int
 	RecvQueue      int
-	Sibling        int // number of messages for a second, unlimited protocol on the same muxer (blob-server only)
+	Sibling        int  // number of messages for a second, unlimited protocol on the same muxer (blob-server only)
+	SiblingTwin    bool // the sibling is the OTHER role of the main protocol's id; it is stopped (unregistered) once it has handled its messages, the last third of the main stream is sent only after that
+	Limit2         int  // two-state cases: limit of state Idle2, entered by the Shift message at index ShiftAt
+	ShiftAt        int  // -1: single state
 	IncompleteKind string
 	Plan           *rawpeer.SeqPlan
 	plan           string
 	Procs          int
 	sumSleepUs     int
+}
+
+// limitAt is the limit of the state in which message i is received.
+func (c *c13Case) limitAt(i int) int {
+	if c.ShiftAt >= 0 && i > c.ShiftAt {
+		return c.Limit2
+	}
+	return c.Limit
 }
 
 func (c *c13Case) sizes() []int {
@@ -325,6 +345,13 @@ func (c *c13Case) describe() map[string]any {
 		"family": c.Family, "limit": c.Limit, "sizes": c.sizes(), "oversize_index": c.Oversize,
 		"segment_cuts": c.Cuts, "handler_delays_us": c.Delays, "transition_delays_us": c.TransDelays, "gate_at": c.Gate, "recv_queue": c.RecvQueue,
 		"sibling_msgs": c.Sibling, "read_plan": c.plan, "gomaxprocs": c.Procs,
+	}
+	if c.SiblingTwin {
+		m["sibling_is_other_role_of_same_id_and_gets_stopped"] = true
+	}
+	if c.ShiftAt >= 0 {
+		m["shift_to_second_state_at"] = c.ShiftAt
+		m["limit_of_second_state"] = c.Limit2
 	}
 	if c.IncompleteKind != "" {
 		m["incomplete_kind"] = c.IncompleteKind
@@ -425,8 +452,12 @@ func genSizesUnderLimit(rt *rapid.T, n, min, limit, typical int) []int {
 	return out
 }
 
+// c13Limits: limits of the harness state map, including the smallest possible ones
+// (2 = the smallest message), values next to internal buffer sizes and the segment size.
+var c13Limits = []int{2, 3, 8, 64, 300, 512, 1000, 4096, 4096, 4096, 12288, 20000, 65535, 65536, 70000}
+
 func genC13Case(rt *rapid.T, thorough bool) *c13Case {
-	c := &c13Case{Oversize: -1, Gate: -1}
+	c := &c13Case{Oversize: -1, Gate: -1, ShiftAt: -1}
 	c.Family = rapid.SampledFrom([]string{
 		"blob-server", "blob-server", "blob-server", "blob-client", "blob-client",
 		"chainsync", "chainsync", "blockfetch", "blockfetch", "blockfetch", "incomplete", "large-legal",
@@ -451,7 +482,7 @@ func genC13Case(rt *rapid.T, thorough bool) *c13Case {
 	var sizes []int
 	switch c.Family {
 	case "blob-server", "blob-client":
-		c.Limit = rapid.SampledFrom([]int{64, 300, 1000, 4096, 4096, 4096, 20000, 65535, 70000}).Draw(rt, "limit")
+		c.Limit = rapid.SampledFrom(c13Limits).Draw(rt, "limit")
 		vol := volumeFor(600_000, c.Plan.Chunks)
 		typical := rapid.SampledFrom([]int{8, 40, 400, 4096}).Draw(rt, "typical")
 		n = rapid.IntRange(3, 150).Draw(rt, "n")
@@ -465,8 +496,41 @@ func genC13Case(rt *rapid.T, thorough bool) *c13Case {
 				break
 			}
 		}
-		if c.Family == "blob-server" && rapid.IntRange(0, 3).Draw(rt, "sibling") == 0 {
-			c.Sibling = rapid.IntRange(1, 10).Draw(rt, "nSibling")
+		if c.Family == "blob-server" {
+			switch rapid.IntRange(0, 5).Draw(rt, "variant") {
+			case 0:
+				c.Sibling = rapid.IntRange(1, 10).Draw(rt, "nSibling")
+			case 1:
+				c.Sibling = rapid.IntRange(1, 10).Draw(rt, "nSibling")
+				c.SiblingTwin = true
+			case 2, 3:
+				// second round in a second state with another limit
+				for c.Limit2 == 0 || c.Limit2 == c.Limit {
+					c.Limit2 = rapid.SampledFrom(c13Limits).Draw(rt, "limit2")
+				}
+				if len(sizes) > 40 {
+					sizes = sizes[:40]
+				}
+				c.ShiftAt = len(sizes)
+				sizes = append(sizes, 2) // the Shift message
+				n2 := rapid.IntRange(1, 40).Draw(rt, "n2")
+				s2 := genSizesUnderLimit(rt, n2, 2, c.Limit2, typical)
+				if c.Limit2 > c.Limit {
+					// legal in the second state only
+					for j := 0; j < len(s2) && j < 3; j++ {
+						s2[rapid.IntRange(0, len(s2)-1).Draw(rt, "bigAt")] = rapid.IntRange(c.Limit+1, c.Limit2).Draw(rt, "bigSz")
+					}
+				}
+				sum2 := 0
+				for j, v := range s2 {
+					sum2 += v
+					if sum2 > vol && j >= 1 {
+						s2 = s2[:j]
+						break
+					}
+				}
+				sizes = append(sizes, s2...)
+			}
 		}
 	case "chainsync":
 		c.Limit = chainsync.MaxPendingMessageBytes
@@ -518,8 +582,22 @@ func genC13Case(rt *rapid.T, thorough bool) *c13Case {
 	}
 	if oversize && len(sizes) > 0 {
 		c.Oversize = rapid.IntRange(0, len(sizes)-1).Draw(rt, "oversizeAt")
-		over := rapid.SampledFrom([]int{1, 1, 2, 100, c.Limit}).Draw(rt, "overBy")
-		sizes[c.Oversize] = c.Limit + over
+		if c.Oversize == c.ShiftAt {
+			c.Oversize++ // the Shift message itself stays legal
+			if c.Oversize >= len(sizes) {
+				c.Oversize = len(sizes) - 1
+				if c.Oversize == c.ShiftAt {
+					c.Oversize = 0
+				}
+			}
+		}
+		lim := c.limitAt(c.Oversize)
+		over := rapid.SampledFrom([]int{1, 1, 2, 100, lim}).Draw(rt, "overBy")
+		sizes[c.Oversize] = lim + over
+		if c.ShiftAt >= 0 && c.Oversize < c.ShiftAt {
+			c.ShiftAt = -1 // the conversation ends before the second state
+			c.Limit2 = 0
+		}
 		sizes = sizes[:min(len(sizes), c.Oversize+1+rapid.IntRange(0, 3).Draw(rt, "afterOversize"))]
 	}
 	// build the wire messages
@@ -527,6 +605,10 @@ func genC13Case(rt *rapid.T, thorough bool) *c13Case {
 		seed := rapid.Uint64().Draw(rt, "seed")
 		switch c.Family {
 		case "blob-server", "incomplete", "large-legal":
+			if i == c.ShiftAt {
+				c.Wire = append(c.Wire, []byte{0x81, blobShift})
+				continue
+			}
 			c.Wire = append(c.Wire, buildBlobOfSize(blobC2S, s, seed, genBlobStyle(rt)))
 		case "blob-client":
 			c.Wire = append(c.Wire, buildBlobOfSize(blobS2C, s, seed, genBlobStyle(rt)))
@@ -540,11 +622,11 @@ func genC13Case(rt *rapid.T, thorough bool) *c13Case {
 	// the builders hit the requested size exactly except next to CBOR head-width
 	// changes; make sure the classification by construction still holds
 	for i, w := range c.Wire {
-		if c.Limit > 0 && i != c.Oversize && len(w) > c.Limit {
-			panic(fmt.Sprintf("harness: message %d built with %d bytes for limit %d", i, len(w), c.Limit))
+		if c.limitAt(i) > 0 && i != c.Oversize && len(w) > c.limitAt(i) {
+			panic(fmt.Sprintf("harness: message %d built with %d bytes for limit %d", i, len(w), c.limitAt(i)))
 		}
-		if i == c.Oversize && len(w) <= c.Limit {
-			panic(fmt.Sprintf("harness: oversize message %d built with %d bytes for limit %d", i, len(w), c.Limit))
+		if i == c.Oversize && len(w) <= c.limitAt(i) {
+			panic(fmt.Sprintf("harness: oversize message %d built with %d bytes for limit %d", i, len(w), c.limitAt(i)))
 		}
 	}
 	if c.Family == "blockfetch" {
@@ -668,6 +750,7 @@ func runC13Case(c *c13Case) c13Outcome {
 	for i, w := range c.Wire {
 		r.prefix[i+1] = r.prefix[i] + len(w)
 	}
+	stopWriter := make(chan struct{})
 	a, b := rawpeer.Pipe(c.Plan, nil)
 	tap := &tapConn{Conn: a}
 	m := muxer.New(tap)
@@ -689,6 +772,9 @@ func runC13Case(c *c13Case) c13Outcome {
 	switch c.Family {
 	case "blob-server", "incomplete", "large-legal":
 		r.sm = blobStateMap(c.Limit, c.Limit)
+		if c.ShiftAt >= 0 {
+			r.sm = blobStateMap2(c.Limit, c.Limit2)
+		}
 		cfg.Name, cfg.ProtocolId, cfg.Role, cfg.InitialState = "blob-7", 7, protocol.ProtocolRoleServer, blobIdle
 		cfg.MessageFromCborFunc = r.decoderWrap(blobDecoder)
 	case "blob-client":
@@ -722,20 +808,31 @@ func runC13Case(c *c13Case) c13Outcome {
 
 	// optional sibling protocol without a limit on the same muxer
 	var sib *blobProto
+	sibID, sibRole, sibTyp := uint16(9), protocol.ProtocolRoleServer, blobC2S
+	if c.SiblingTwin {
+		// the other role of the main protocol's id: a client instance next to the server instance
+		sibID, sibRole, sibTyp = cfg.ProtocolId, protocol.ProtocolRoleClient, blobS2C
+	}
 	if c.Sibling > 0 {
-		sib = &blobProto{id: 9, role: protocol.ProtocolRoleServer}
+		sib = &blobProto{id: sibID, role: sibRole}
 		sib.cond = sync.NewCond(&sib.mu)
 		sib.P = protocol.New(protocol.ProtocolConfig{
-			Name: "blob-9", ProtocolId: 9, ErrorChan: errCh, Muxer: m, Mode: protocol.ProtocolModeNodeToNode,
-			Role: protocol.ProtocolRoleServer, MessageHandlerFunc: sib.handle, MessageFromCborFunc: sib.fromCbor,
+			Name: fmt.Sprintf("blob-%d-sibling", sibID), ProtocolId: sibID, ErrorChan: errCh, Muxer: m, Mode: protocol.ProtocolModeNodeToNode,
+			Role: sibRole, MessageHandlerFunc: sib.handle, MessageFromCborFunc: sib.fromCbor,
 			StateMap: blobStateMap(0, 0), InitialState: blobIdle,
 		})
 	}
 	r.P.Start()
 	if sib != nil {
 		sib.P.Start()
+		if c.SiblingTwin {
+			// give the (raw) server side of the sibling conversation agency
+			_ = sib.P.SendMessage(newBlobMsg(blobTurnC, []byte{0x81, blobTurnC}, false))
+		}
 	}
-	if cfg.Role == protocol.ProtocolRoleClient {
+	if c.SiblingTwin {
+		m.SetDiffusionMode(muxer.DiffusionModeInitiatorAndResponder)
+	} else if cfg.Role == protocol.ProtocolRoleClient {
 		m.SetDiffusionMode(muxer.DiffusionModeInitiator)
 	} else {
 		m.SetDiffusionMode(muxer.DiffusionModeResponder)
@@ -785,8 +882,16 @@ func runC13Case(c *c13Case) c13Outcome {
 		}
 	}
 	var segs []rawpeer.Seg
+	holds := map[int]func() bool{} // segment index -> condition the peer waits for before sending it
+	pauseAfterByte := -1           // two-state: stream offset at which round 2 starts
+	if c.ShiftAt >= 0 {
+		pauseAfterByte = r.prefix[c.ShiftAt+1]
+	}
 	if c.Cuts == nil && c.Family != "incomplete" {
-		for _, w := range c.Wire {
+		for i, w := range c.Wire {
+			if c.ShiftAt >= 0 && i == c.ShiftAt+1 {
+				holds[len(segs)] = func() bool { r.mu.Lock(); defer r.mu.Unlock(); return len(r.handled) > c.ShiftAt }
+			}
 			segs = append(segs, rawpeer.SplitPayload(cfg.ProtocolId, peerIsResponder, w, 0)...)
 		}
 	} else {
@@ -804,31 +909,67 @@ func runC13Case(c *c13Case) c13Outcome {
 			if n > len(stream)-pos {
 				n = len(stream) - pos
 			}
+			if pauseAfterByte > pos && pos+n > pauseAfterByte {
+				n = pauseAfterByte - pos // no byte of the second round before the Shift message was handled
+			}
+			if pos == pauseAfterByte && pos < len(stream) {
+				holds[len(segs)] = func() bool { r.mu.Lock(); defer r.mu.Unlock(); return len(r.handled) > c.ShiftAt }
+			}
 			segs = append(segs, rawpeer.Seg{ProtoID: cfg.ProtocolId, Response: peerIsResponder, Payload: stream[pos : pos+n]})
 			pos += n
 		}
 	}
 	// sibling messages are spread evenly between the main segments
 	var sibWire [][]byte
+	sibStopped := make(chan struct{})
 	if sib != nil {
-		step := len(segs)/(c.Sibling+1) + 1
+		span := len(segs)
+		if c.SiblingTwin {
+			span = len(segs) / 2 // all sibling traffic in the first half of the main stream
+		}
+		step := span/(c.Sibling+1) + 1
 		var mixed []rawpeer.Seg
 		k := 0
+		sibSeg := func() rawpeer.Seg {
+			w := buildBlobOfSize(sibTyp, 20+k, uint64(k), blobStyle{})
+			sibWire = append(sibWire, w)
+			k++
+			return rawpeer.Seg{ProtoID: sibID, Response: c.SiblingTwin, Payload: w}
+		}
+		holdFrom := len(segs) * 2 / 3
 		for i, s := range segs {
+			if c.SiblingTwin && i == holdFrom {
+				for k < c.Sibling {
+					mixed = append(mixed, sibSeg())
+				}
+				// the rest of the main stream flows only after the sibling was unregistered
+				holds[len(mixed)] = func() bool {
+					select {
+					case <-sibStopped:
+						return true
+					default:
+						return false
+					}
+				}
+			}
 			mixed = append(mixed, s)
 			if (i+1)%step == 0 && k < c.Sibling {
-				w := buildBlobOfSize(blobC2S, 20+k, uint64(k), blobStyle{})
-				sibWire = append(sibWire, w)
-				mixed = append(mixed, rawpeer.Seg{ProtoID: 9, Payload: w})
-				k++
+				mixed = append(mixed, sibSeg())
 			}
 		}
-		for ; k < c.Sibling; k++ {
-			w := buildBlobOfSize(blobC2S, 20+k, uint64(k), blobStyle{})
-			sibWire = append(sibWire, w)
-			mixed = append(mixed, rawpeer.Seg{ProtoID: 9, Payload: w})
+		for k < c.Sibling {
+			mixed = append(mixed, sibSeg())
 		}
 		segs = mixed
+	}
+	if sib != nil && c.SiblingTwin {
+		go func() {
+			defer close(sibStopped)
+			libProgress := func() int64 { return tap.nRead.Load() + r.decoded.Load() + int64(sib.handledCount()) }
+			if sib.waitHandled(c.Sibling, patience, stopWriter, libProgress) {
+				sib.P.Stop() // Protocol.Stop -> Muxer.UnregisterProtocol(id, initiator role)
+			}
+		}()
 	}
 	// Causality: a peer can answer only what it has been asked. For the families in
 	// which the library speaks first (prelude) the peer's stream is therefore cut into
@@ -859,7 +1000,6 @@ func runC13Case(c *c13Case) c13Outcome {
 		}
 		return 0
 	}
-	stopWriter := make(chan struct{})
 	writerDone := make(chan error, 1)
 	dynamic := len(prelude) > 0
 	go func() {
@@ -903,7 +1043,15 @@ func runC13Case(c *c13Case) c13Outcome {
 			writerDone <- nil
 			return
 		}
-		for _, s := range segs {
+		for i, s := range segs {
+			for h := holds[i]; h != nil && !h(); {
+				select {
+				case <-stopWriter:
+					writerDone <- nil
+					return
+				case <-time.After(50 * time.Microsecond):
+				}
+			}
 			select {
 			case <-stopWriter:
 				writerDone <- nil
@@ -978,7 +1126,7 @@ func runC13Case(c *c13Case) c13Outcome {
 		if !ok {
 			var what string
 			if c.Family != "incomplete" {
-				what = fmt.Sprintf("message #%d has %d bytes, the limit is %d, but no error was reported (no progress for %v, handled %d)", c.Oversize, len(c.Wire[c.Oversize]), c.Limit, patience, handledCount())
+				what = fmt.Sprintf("message #%d has %d bytes, the limit is %d, but no error was reported (no progress for %v, handled %d)", c.Oversize, len(c.Wire[c.Oversize]), c.limitAt(c.Oversize), patience, handledCount())
 			} else {
 				what = fmt.Sprintf("an incomplete message (%s) grew to %d bytes written by the peer (%d consumed by the library) without an error (then no progress for %v)", c.IncompleteKind, r.written.Load(), tap.nRead.Load(), patience)
 			}
@@ -1004,7 +1152,7 @@ func runC13Case(c *c13Case) c13Outcome {
 			}
 			r.mu.Lock()
 			if len(r.acc) > c.Oversize {
-				r.failLocked("C13:"+c.Family+":oversize-admitted", fmt.Sprintf("message #%d (%d bytes, limit %d) was admitted to the receive queue", c.Oversize, len(c.Wire[c.Oversize]), c.Limit), nil)
+				r.failLocked("C13:"+c.Family+":oversize-admitted", fmt.Sprintf("message #%d (%d bytes, limit %d) was admitted to the receive queue", c.Oversize, len(c.Wire[c.Oversize]), c.limitAt(c.Oversize)), nil)
 			}
 			r.mu.Unlock()
 		}
@@ -1081,10 +1229,42 @@ func TestC13(t *testing.T) {
 
 	// fixed instances of the 16 MiB clauses, so that every run exercises them
 	for _, fc := range []*c13Case{
-		{Family: "incomplete", Limit: 4096, IncompleteKind: "definite-bytes", Oversize: -1, Gate: -1, Plan: &rawpeer.SeqPlan{}, plan: "unfragmented",
+		{Family: "incomplete", Limit: 4096, IncompleteKind: "definite-bytes", Oversize: -1, Gate: -1, ShiftAt: -1, Plan: &rawpeer.SeqPlan{}, plan: "unfragmented",
 			Wire: [][]byte{buildBlobOfSize(blobC2S, 100, 1, blobStyle{})}, Delays: []int{0}},
-		{Family: "large-legal", Limit: 0, Oversize: -1, Gate: -1, Plan: &rawpeer.SeqPlan{}, plan: "unfragmented", Cuts: []int{65535},
+		{Family: "large-legal", Limit: 0, Oversize: -1, Gate: -1, ShiftAt: -1, Plan: &rawpeer.SeqPlan{}, plan: "unfragmented", Cuts: []int{65535},
 			Wire: [][]byte{buildBlobOfSize(blobC2S, 10, 1, blobStyle{}), buildBlobOfSize(blobC2S, maxReadBuffer, 2, blobStyle{}), buildBlobOfSize(blobC2S, 7, 3, blobStyle{})}, Delays: []int{0, 0, 0}},
+		// sums and single messages exactly on the limit, held at the first message
+		{Family: "blob-server", Limit: 4096, Oversize: -1, Gate: 0, GateHoldUs: 1000, ShiftAt: -1, Plan: &rawpeer.SeqPlan{}, plan: "unfragmented",
+			Wire: func() (w [][]byte) {
+				for i, sz := range []int{4096, 2048, 2048, 2, 4094, 4096, 1024, 1024, 1024, 1024, 4095, 3} {
+					w = append(w, buildBlobOfSize(blobC2S, sz, uint64(i), blobStyle{}))
+				}
+				return
+			}(), Delays: make([]int, 12)},
+		// second state with a larger limit: 300..5000-byte messages are legal only after the Shift
+		{Family: "blob-server", Limit: 300, Limit2: 5000, ShiftAt: 4, Oversize: -1, Gate: 1, GateHoldUs: 500, Plan: &rawpeer.SeqPlan{}, plan: "unfragmented", Cuts: []int{65535},
+			Wire: func() (w [][]byte) {
+				for i, sz := range []int{300, 150, 150, 299} {
+					w = append(w, buildBlobOfSize(blobC2S, sz, uint64(i), blobStyle{}))
+				}
+				w = append(w, []byte{0x81, blobShift})
+				for i, sz := range []int{5000, 301, 2500, 2500, 4999} {
+					w = append(w, buildBlobOfSize(blobC2S, sz, uint64(10+i), blobStyle{}))
+				}
+				return
+			}(), Delays: make([]int, 10)},
+		// second state with a smaller limit: a message that would have been legal before the Shift is oversized after it
+		{Family: "blob-server", Limit: 5000, Limit2: 300, ShiftAt: 2, Oversize: 5, Gate: -1, Plan: &rawpeer.SeqPlan{}, plan: "unfragmented",
+			Wire: func() (w [][]byte) {
+				for i, sz := range []int{5000, 2500} {
+					w = append(w, buildBlobOfSize(blobC2S, sz, uint64(i), blobStyle{}))
+				}
+				w = append(w, []byte{0x81, blobShift})
+				for i, sz := range []int{300, 150, 301} {
+					w = append(w, buildBlobOfSize(blobC2S, sz, uint64(10+i), blobStyle{}))
+				}
+				return
+			}(), Delays: make([]int, 6)},
 	} {
 		fc.Procs = runtime.GOMAXPROCS(0)
 		out := runC13Case(fc)
@@ -1092,6 +1272,8 @@ func TestC13(t *testing.T) {
 		rec.Class("fixed_" + fc.Family)
 		if fc.Family == "incomplete" {
 			rec.NonTrivial("fixed incomplete definite-bytes", fc.describe())
+		} else if fc.Limit > 0 {
+			rec.NonTrivial(fmt.Sprintf("fixed %v", fc.describe()), fc.describe())
 		}
 		for _, f := range out.fails {
 			cs := fc.describe()
@@ -1113,13 +1295,13 @@ func TestC13(t *testing.T) {
 		rec.Class("family_" + c.Family)
 		if c.Oversize >= 0 {
 			rec.Class("oversize")
-			if len(c.Wire[c.Oversize]) == c.Limit+1 {
+			if len(c.Wire[c.Oversize]) == c.limitAt(c.Oversize)+1 {
 				rec.Class("oversize_by_1")
 			}
 		}
 		exactLimit := false
 		for i, w := range c.Wire {
-			if len(w) == c.Limit && i != c.Oversize {
+			if len(w) == c.limitAt(i) && i != c.Oversize {
 				exactLimit = true
 			}
 		}
@@ -1146,6 +1328,29 @@ func TestC13(t *testing.T) {
 		}
 		if c.Sibling > 0 {
 			rec.Class("with_sibling")
+		}
+		if c.SiblingTwin {
+			rec.Class("sibling_other_role_of_same_id_stopped_mid_stream")
+		}
+		if c.ShiftAt >= 0 {
+			rec.Class("two_states_with_different_limits")
+			if c.Limit2 > c.Limit {
+				rec.Class("second_state_limit_larger")
+				for i, w := range c.Wire {
+					if i > c.ShiftAt && len(w) > c.Limit && i != c.Oversize {
+						rec.Class("msg_legal_only_in_second_state")
+						break
+					}
+				}
+			} else {
+				rec.Class("second_state_limit_smaller")
+				if c.Oversize > c.ShiftAt && len(c.Wire[c.Oversize]) <= c.Limit {
+					rec.Class("oversize_only_for_second_state")
+				}
+			}
+		}
+		if c.Limit <= 8 && c.Limit > 0 {
+			rec.Class("limit_le_8")
 		}
 		if out.completed {
 			rec.Class("completed")
